@@ -3,12 +3,15 @@ package spdxexp
 // ExtractLicenses extracts licenses from the given expression without duplicates.
 // Returns an array of licenses or error if error occurs during processing.
 func ExtractLicenses(expression string) ([]string, error) {
+	defer verifStage("ExtractLicenses", "return")
 	node, err := parse(expression)
 	if err != nil {
 		return nil, err
 	}
+	verifStage("ExtractLicenses", "parsed")
 
 	expanded := node.expand(true)
+	verifStage("ExtractLicenses", "expanded")
 	licenses := make([]string, 0)
 	allLicenses := flatten(expanded)
 	for _, licenseNode := range allLicenses {
